@@ -233,6 +233,13 @@ func genC02(g *Gen, tier string, w *bufio.Writer) {
 			fmt.Fprintf(w, "ser def %s\n", t)
 		}
 	}
+	for _, ct := range wideContainers() {
+		for k := 0; k < 3; k++ {
+			v := g.RandVal(ct, 200)
+			fmt.Fprintf(w, "ser new %s %s\n", ct, v)
+			fmt.Fprintf(w, "rt %s %s\n", ct, v)
+		}
+	}
 	// every bit index of bitfields up to 513
 	for _, n := range []uint64{1, 7, 8, 9, 31, 32, 33, 34, 63, 64, 65, 255, 256, 257, 512, 513} {
 		for _, t := range []*Ty{{Kind: KBitvector, N: n}, {Kind: KBitlist, N: n}, {Kind: KBitlist, N: 1 << 20}} {
